@@ -64,7 +64,21 @@ def job_solver(job):
                   "rstrat": obs.strats(fields["reachability_strategies"])})
         elif event == "Conditioned":
             emit({"e": "Conditioned", "nodes": obs.nodes(fields["state_list"])})
+        elif event == "RewardSweep" and sweeps["on"]:
+            sl = fields["state_list"]
+            ev = {"e": "RewardSweep", "sweep": int(fields["sweep"]),
+                  "r": obs.nums([s.expected_rewards for s in sl]),
+                  "q": obs.nums([s.expected_rewards_min_reach for s in sl]),
+                  "p": obs.nums([s.expected_reach_min_rewards for s in sl]),
+                  "lens": [len(s.next_states) for s in sl]}
+            # long iterations: the first 40 sweeps and the last 8 (a contiguous tail)
+            if ev["sweep"] <= 40:
+                emit(ev)
+            else:
+                sweeps["tail"].append(ev)
+                del sweeps["tail"][:-8]
 
+    sweeps = {"on": False, "tail": []}
     hooked = hasattr(tad, "VERIF_SINK")
     if hooked:
         tad.VERIF_SINK = sink
@@ -133,7 +147,14 @@ def job_solver(job):
                     objs[key] = sg
             if not hooked:
                 raise RuntimeError("tad.py has no verification hooks (VERIF_SINK)")
-            result = sg.solve()
+            sweeps["on"] = bool(op.get("sweeps"))
+            sweeps["tail"] = []
+            try:
+                result = sg.solve()
+            finally:
+                for ev in sweeps["tail"]:
+                    emit(ev)
+                sweeps["on"] = False
         except Exception as exc:  # observed, not judged
             emit(classify(exc))
             prev_raised = True
